@@ -46,12 +46,12 @@ Lemma run_fwd_appends : forall dall st ds, run_chain dall st (BFwd :: map BAppen
 Proof. intros. simpl. rewrite run_appends. reflexivity. Qed.
 
 Theorem update_converges : forall cf dall t k cs k',
-  uhyp cf t k -> apply_cmds cf t = Some cs -> exec dall k cs = Some k' ->
+  uhyp cf t k -> apply_cmds_legacy cf t = Some cs -> exec dall k cs = Some k' ->
   forall c, get c k' = tgt cf t k c.
 Proof.
   intros cf dall t k cs k' U Ha He c.
   pose proof (exec_proj _ _ _ _ He c) as Hr.
-  unfold apply_cmds in Ha. destruct (pass3_all cf t (t_dirtyIA t)) as [p3|] eqn:E3; try discriminate.
+  unfold apply_cmds_legacy in Ha. destruct (pass3_all cf t (t_dirtyIA t)) as [p3|] eqn:E3; try discriminate.
   inversion Ha; subst cs; clear Ha.
   rewrite !proj_app in Hr.
   rewrite (proj_flat_map c (pass1 t)) in Hr by (try apply pass1_names; apply U).
@@ -123,4 +123,12 @@ Proof.
            injection Hr as Hk'. rewrite <- Hk'. reflexivity.
         -- destruct (rev (lines_of (rules_of (t_ins t) c))); [destruct (lines_of (rules_of (t_app t) c))|]; simpl in Hr; try discriminate.
            injection Hr as Hk'. rewrite <- Hk'. reflexivity.
+Qed.
+
+Theorem update_converges' : forall cf dall t k cs k',
+  cf_nft cf = false ->
+  uhyp cf t k -> apply_cmds cf t = Some cs -> exec dall k cs = Some k' ->
+  forall c, get c k' = tgt cf t k c.
+Proof.
+  intros cf dall t k cs k' Hn U Ha. unfold apply_cmds in Ha. rewrite Hn in Ha. eapply update_converges; eauto.
 Qed.
